@@ -1103,6 +1103,12 @@ class Reaction(Object):
         Reaction
             Returns the same reaction modified in place.
         """
+        if coefficient == 0:
+            # Nothing is left of the reaction: take the metabolites out instead
+            # of keeping them with a coefficient of zero.
+            self.subtract_metabolites(dict(self._metabolites))
+            return self
+
         self._metabolites = {
             met: value * coefficient for met, value in self._metabolites.items()
         }
